@@ -475,7 +475,7 @@ func paramsIn(t *eng.Term) map[int]bool {
 
 func analyzeDelegators(p *load.Program, r *Roles, res *UnitResult) {
 	col := res.Col
-	phase := []string{"Prep", "Exec", "Post", "ExecFallback", "GetMaxRetries", "GetWait"}
+	phase := []string{"Prep", "Exec", "Post", "ExecFallback", "GetMaxRetries", "GetWait", "GetBatchConcurrency", "GetBatchErrorHandling"}
 	// inner methods are summarised as deterministic calls
 	pure := map[*ssa.Function]string{}
 	for _, tn := range []string{"CustomNode", "BatchNode", "BaseNode"} {
@@ -567,6 +567,14 @@ func analyzeDelegators(p *load.Program, r *Roles, res *UnitResult) {
 						col.CheckAt("C17.R5,C01.R6", tn+"."+m+":transparent", same, pth.pos, "a method that delegates to the embedded node's "+strings.TrimPrefix(uc.class, "sum:")+" must return that method's results unchanged: "+whyS, nil)
 					}
 				}
+				// a function field is called only where it is known to be set: a node built without
+				// that function gets the default behaviour, not a nil-function call
+				for _, uc := range pth.calls {
+					if uc.fnTerm != nil && (strings.HasPrefix(uc.class, "field:") || strings.HasPrefix(uc.class, "dyn:")) {
+						set := pth.e.Eval(pth.st.Facts(), eng.Bin("!=", uc.fnTerm, eng.Nil())) == eng.TriTrue
+						col.CheckAt("C01.R6,C19.R8", tn+"."+m+":calls-set-function", set, uc.pos, "the method calls "+uc.fnTerm.Pretty()+" on a path where it is not known to be set: a node built without that function would panic instead of behaving as the default", nil)
+					}
+				}
 				// a phase method does its work exactly once: the configured function, or the
 				// embedded default - never neither (an input silently passed over) and never twice
 				if !pth.panic && (m == "Prep" || m == "Exec" || m == "Post" || m == "ExecFallback") {
@@ -590,6 +598,24 @@ func analyzeDelegators(p *load.Program, r *Roles, res *UnitResult) {
 						ruleOnce += ",C02.R4,C07.R7" // the fallback a node configured is the one that is consulted
 					}
 					col.CheckAt(ruleOnce, tn+"."+m+":calls-once", okOnce, pth.pos, fmt.Sprintf("a phase method does its work exactly once per call - the configured function or the default, never neither (an input silently passed over) and never twice: in %s.%s %s", tn, m, whyOnce), nil)
+				}
+				// a configuration getter declared on a wrapper type answers with the embedded node's
+				// getter of the same name, unchanged: the run reads budget, wait, concurrency and mode
+				// through whatever getter the node's dynamic type exposes
+				if !pth.panic && strings.HasPrefix(m, "Get") {
+					okG, whyG := false, fmt.Sprintf("%d calls on the path", len(pth.calls))
+					if len(pth.calls) == 1 {
+						uc := pth.calls[0]
+						switch {
+						case !strings.HasPrefix(uc.class, "sum:") || !strings.HasSuffix(uc.class, "."+m):
+							whyG = "it calls " + uc.class
+						case len(pth.rets) != 1 || len(uc.res) != 1 || pth.rets[0] != uc.res[0]:
+							whyG = "it returns " + prettyArgs(pth.rets) + ", the embedded getter returned " + prettyArgs(uc.res)
+						default:
+							okG = true
+						}
+					}
+					col.CheckAt("C19.R5"+map[string]string{"GetMaxRetries": ",C02.R1", "GetWait": ",C20.R1", "GetBatchConcurrency": ",C08.R6", "GetBatchErrorHandling": ",C07.R6,C09.R5"}[m], tn+"."+m+":getter-delegates", okG, pth.pos, "a configuration getter of a wrapper type must return what the embedded node's "+m+" returns: "+whyG, nil)
 				}
 				// an adapter may report success only after it has seen the callee's error to be nil
 				for _, uc := range pth.calls {
